@@ -29,6 +29,8 @@ CHECKS = {
          "held on everything observed: type chains exhaustive to depth 2 (quick) / 3 (thorough) at field and parameter sites plus seeded deeper trees; name sets equal; value-level acceptance on a real-serde sample; differences equal to a recorded defect model are KNOWN-FINDINGs", "4 C10"),
  "C11": ("exploration", "runtime monitor: generated validated structs with declared constraints as ground truth; method chains of the emitted field schemas parsed and compared as multisets of (method, decoded number, decoded message)",
          "held on everything observed: 350 (quick) / 7 000 (thorough) projects, ~3 300 / ~66 000 fields over length/range/email/url combinations, 10 field types, 27 bound spellings, messages over Unicode/quotes/backslashes/parentheses/keywords, one or several attributes", "4 C11"),
+ "C12": ("exploration", "runtime monitor: generated emit placements / receivers / payload forms with ground truth; listeners parsed from events.ts (listen literal, identifier, payload type) and compared",
+         "held on everything observed: every placement (18), documented receiver form (8) and payload form (33) systematically in both modes plus 300 (quick) / 5 000 (thorough) random projects with 1-5 events emitted from 1-3 functions/files over the Tauri event-name alphabet; no-events case", "4 C12"),
  "C20": ("exploration", "runtime monitor: real ordering routines driven over enumerated graphs, each result judged by a closure/SCC oracle; crash = replayed and bisected",
          "held on every call observed: exhaustive over all digraphs (self-loops included) on <=3 nodes in quick and <=4 nodes in thorough, x all requested subsets x repeated fresh hash seeds, plus random graphs to 12 nodes; evidence reports distinct result orders seen per case", "4 C20"),
 }
